@@ -21,10 +21,10 @@ REGISTRY = {
                             "(thorough) compressors; 4 mmap modes with alignment and file-unchanged checks (numpy from the offline wheelhouse in an overlay venv built by setup.sh)")],
         trusted=["numpy: nditer yields every element once in the requested order; frombuffer(tobytes) is the identity; make_memmap maps nbytes at offset; multiply.reduce(shape) is the element count",
                  "file handle position model (tell/read/write/seek)"],
-        assumptions=["itemsize in {1, 2, 4, 8, 16} for the chunked read loop (keeps the arithmetic linear)", "_read_bytes consumes exactly n bytes (C14)",
-                     "of the worker-side memmapping only _reduce_memmap_backed (the pickling reduction of views on a memmap) is under contract, shape-bounded to 2-d views with strides that are multiples of the item size; "
-                     "the loky reducers, temporary-file management and the forward reducer's size threshold are not",
-                     "non-seekable... (n/a)" if False else "numpy array class set: the pickler wraps exactly ndarray, memmap and matrix"],
+        assumptions=["item sizes of the chunked read loop: {0, 1, 2, 4, 8, 16, 2**18 - 1, 2**18, 2**18 + 1, 300000} (a finite set keeps the arithmetic linear; sizes around the 256 KiB read buffer included)", "_read_bytes consumes exactly n bytes (C14)",
+                     "worker-side memmapping under contract: _reduce_memmap_backed (2-d views, symbolic strides: aligned / unaligned / negative), ArrayMemmapForwardReducer.__call__ (threshold, mmap_mode None, unnamed backing file, tracker registrations), "
+                     "reduce_array_memmap_backward, load_temporary_memmap, add_maybe_unlink_finalizer, _log_and_unlink; loky's own reducers and the pickling of the reduction tuples are external",
+                     "numpy array class set: the pickler wraps exactly ndarray, memmap and matrix (NumpyPickler.save contract: classes whose whole state is dtype, shape and bytes)"],
         undecided_clauses=["dtype / endianness semantics, object arrays, subclasses and worker-side memmapping end to end are numpy's / loky's; only covered by the bounded native grid"],
     ),
     "C16": dict(
@@ -36,7 +36,7 @@ REGISTRY = {
         trusted=["backend contract (public extension API): every submitted batch runs at most once, its callback is invoked at most once with the results in item order or an error",
                  "monitor rule: state written only under Parallel._lock with the lock invariant re-established before each release satisfies it in every interleaving (meta-theorem)",
                  "queue.Queue FIFO, collections.deque, itertools.islice semantics", "function summaries used between the four parts of the pack mirror contracts proved in another part (link by inspection)"],
-        assumptions=["ordered mode for the in-order claims", "batch_size='auto' (variant dispatch_one_batch[auto-batch-size]): the look-ahead bound is stated with the largest batch size any thread has computed so far (ghost BSMAX, compute_batch_size >= 1 from its part-1 contract)", "BatchedCalls.__call__ / _get_sequential_output are shape-bounded (3 items)"],
+        assumptions=["ordered mode for the in-order claims", "batch_size='auto' (variant dispatch_one_batch[auto-batch-size]): the look-ahead bound is stated with the largest batch size any thread has computed so far (ghost BSMAX, compute_batch_size >= 1 from its part-1 contract)", "_get_sequential_output: 3-task unrolling plus the variant any-number-of-tasks (loop invariant: the k-th iteration runs task k, yields it as the k-th result, counters follow); BatchedCalls.__call__ is shape-bounded (3 items: the list comprehension is Python's)"],
         undecided_clauses=["'as soon as' in wall-clock terms (10 ms polling) and garbage-collection timing"],
     ),
     "C09": dict(
@@ -48,7 +48,7 @@ REGISTRY = {
         trusted=["backend contract (public extension API): every submitted batch runs at most once, its callback is invoked at most once with the results in item order or an error",
                  "monitor rule: state written only under Parallel._lock with the lock invariant re-established before each release satisfies it in every interleaving (meta-theorem)",
                  "queue.Queue FIFO, collections.deque, itertools.islice semantics", "function summaries used between the four parts of the pack mirror contracts proved in another part (link by inspection)"],
-        assumptions=["ordered mode for the in-order claims", "batch_size='auto' (variant dispatch_one_batch[auto-batch-size]): the look-ahead bound is stated with the largest batch size any thread has computed so far (ghost BSMAX, compute_batch_size >= 1 from its part-1 contract)", "BatchedCalls.__call__ / _get_sequential_output are shape-bounded (3 items)"],
+        assumptions=["ordered mode for the in-order claims", "batch_size='auto' (variant dispatch_one_batch[auto-batch-size]): the look-ahead bound is stated with the largest batch size any thread has computed so far (ghost BSMAX, compute_batch_size >= 1 from its part-1 contract)", "_get_sequential_output: 3-task unrolling plus the variant any-number-of-tasks (loop invariant: the k-th iteration runs task k, yields it as the k-th result, counters follow); BatchedCalls.__call__ is shape-bounded (3 items: the list comprehension is Python's)"],
         undecided_clauses=[],
     ),
     "C04": dict(
@@ -60,7 +60,7 @@ REGISTRY = {
         trusted=["backend contract (public extension API): every submitted batch runs at most once, its callback is invoked at most once with the results in item order or an error",
                  "monitor rule: state written only under Parallel._lock with the lock invariant re-established before each release satisfies it in every interleaving (meta-theorem)",
                  "queue.Queue FIFO, collections.deque, itertools.islice semantics", "function summaries used between the four parts of the pack mirror contracts proved in another part (link by inspection)"],
-        assumptions=["ordered mode for the in-order claims", "batch_size='auto' (variant dispatch_one_batch[auto-batch-size]): the look-ahead bound is stated with the largest batch size any thread has computed so far (ghost BSMAX, compute_batch_size >= 1 from its part-1 contract)", "BatchedCalls.__call__ / _get_sequential_output are shape-bounded (3 items)"],
+        assumptions=["ordered mode for the in-order claims", "batch_size='auto' (variant dispatch_one_batch[auto-batch-size]): the look-ahead bound is stated with the largest batch size any thread has computed so far (ghost BSMAX, compute_batch_size >= 1 from its part-1 contract)", "_get_sequential_output: 3-task unrolling plus the variant any-number-of-tasks (loop invariant: the k-th iteration runs task k, yields it as the k-th result, counters follow); BatchedCalls.__call__ is shape-bounded (3 items: the list comprehension is Python's)"],
         undecided_clauses=["the call always terminates (liveness over threads/processes) is not decided"],
     ),
     "C01": dict(
@@ -72,7 +72,7 @@ REGISTRY = {
         trusted=["backend contract (public extension API): every submitted batch runs at most once, its callback is invoked at most once with the results in item order or an error",
                  "monitor rule: state written only under Parallel._lock with the lock invariant re-established before each release satisfies it in every interleaving (meta-theorem)",
                  "queue.Queue FIFO, collections.deque, itertools.islice semantics", "function summaries used between the four parts of the pack mirror contracts proved in another part (link by inspection)"],
-        assumptions=["ordered mode for the in-order claims", "batch_size='auto' (variant dispatch_one_batch[auto-batch-size]): the look-ahead bound is stated with the largest batch size any thread has computed so far (ghost BSMAX, compute_batch_size >= 1 from its part-1 contract)", "BatchedCalls.__call__ / _get_sequential_output are shape-bounded (3 items)"],
+        assumptions=["ordered mode for the in-order claims", "batch_size='auto' (variant dispatch_one_batch[auto-batch-size]): the look-ahead bound is stated with the largest batch size any thread has computed so far (ghost BSMAX, compute_batch_size >= 1 from its part-1 contract)", "_get_sequential_output: 3-task unrolling plus the variant any-number-of-tasks (loop invariant: the k-th iteration runs task k, yields it as the k-th result, counters follow); BatchedCalls.__call__ is shape-bounded (3 items: the list comprehension is Python's)"],
         undecided_clauses=["fairness / termination of the retrieval loop; behaviour of third-party backends", "generator_unordered: _retrieve[unordered] proves that each finished batch is delivered exactly once, in queue order; that the queue order IS the completion order rests on _register_outcome's enqueue under the lock (part 1)"],
     ),
     "C03": dict(
